@@ -597,7 +597,14 @@ class DocumentMapper:
         preceding = [s for s in self.spans if s.end == index]
         if preceding:
             if preceding[-1].run:
-                return preceding[-1].run
+                # A run with line breaks and markers has several spans: the index may end one of them in the middle
+                # of the run, and the insertion belongs there, not after the whole run.
+                span = preceding[-1]
+                offset = self._offset_in_run(span) + len(span.text)
+                if offset < len(get_run_text(span.run)):
+                    left, _ = self._split_run_at_index(span.run, offset)
+                    return left
+                return span.run
         containing = [s for s in self.spans if s.start < index < s.end]
         if containing:
             span = containing[0]
